@@ -78,12 +78,12 @@ pub fn run(opt: &HashMap<String, String>) -> i32 {
 
 fn dispatch(name: &str, ctx: &Ctx, rep: &mut Report) -> bool {
     match name {
-        "shape_sweep" => shape_sweep(rep, ctx.seed, ctx.big),
+        "shape_sweep" => shape_sweep(rep, ctx.seed, ctx.big, &ctx.progress),
         "wf" => sweep(ctx, rep, &check_wf),
-        "monotone" => sweep(ctx, rep, &check_monotone),
+        "monotone" => { sweep(ctx, rep, &check_monotone); wrap_histories(ctx, rep); }
         "criterion" => sweep(ctx, rep, &check_replay),
         "greedy" => sweep(ctx, rep, &check_replay),
-        "safety" => { sweep(ctx, rep, &check_safety); long_histories(ctx, rep); }
+        "safety" => { sweep(ctx, rep, &check_safety); long_histories(ctx, rep); wrap_histories(ctx, rep); }
         "single_exact" => sweep_single(ctx, rep),
         "agree" => agree(ctx, rep),
         "scale" => scale(ctx, rep),
@@ -182,6 +182,11 @@ fn extra_cases(ctx: &Ctx) -> Vec<AlgoCase> {
             for algo in [1u8, 0, 2] { push(&mut rng, algo, 0, n, fam); }
             if n <= 258 { push(&mut rng, 2, 1, n, fam); push(&mut rng, 2, 2, n, fam); }
         }
+    }
+    // a hub matrix: the generic algorithm repairs a quadratic number of stale candidates on it
+    for &n in (if ctx.big { &[100u64, 130, 300][..] } else { &[100u64, 130][..] }) {
+        for method in 0..7u8 { push(&mut rng, 3, method, n, "star"); }
+        push(&mut rng, 0, 6, n, "star"); push(&mut rng, 0, 5, n, "star"); push(&mut rng, 2, 2, n, "star");
     }
     if ctx.prop == "C02" || ctx.prop == "C12" {
         // clusters of more than 1625 members: |AB|^3 >= 2^32 (only the recurrence reference is used there)
@@ -883,6 +888,43 @@ fn slot_probe(ctx: &Ctx, rep: &mut Report) {
             let mut v: Vec<f64> = (0..len).map(|i| 100.0 + i as f64).collect();
             v[k] = 1.0;
             if let Some(x) = k2 { v[x] = 2.0; }
+            // the same probe below zero: every other entry is exactly 0.0 (or -0.0), the two probed
+            // slots are negative - dissimilarities need not be positive, and "nothing is closer than
+            // zero" shortcuts show only here
+            if n <= 64 {
+                let mut w: Vec<f64> = (0..len).map(|i| if i % 3 == 0 { -0.0 } else { 0.0 }).collect();
+                w[k] = -2.0;
+                if let Some(x) = k2 { w[x] = -1.0; }
+                let prs0 = &prs;
+                for algo in 0..5u8 {
+                    // (not the methods that square the entries: they order by magnitude)
+                    let methods: Vec<u8> = if n <= 16 { (0..4).filter(|&m| accepts(algo, m)).collect() } else { vec![0] };
+                    for method in methods {
+                        let wide = (k + algo as usize) % 2 == 0;
+                        let c = AlgoCase { algo, method, wide, n, bits: to_bits(&w, wide), family: "probe0" };
+                        let out = run_fresh_w(wide, algo, method, n, &c.bits);
+                        rep.evaluations += 1;
+                        if let Outcome::Ok { steps, .. } = &out {
+                            let (i, j) = prs0[k];
+                            if steps.is_empty() || (steps[0].c1, steps[0].c2) != (i, j) || height(&c, &steps[0]) != -2.0 {
+                                rep.violation(format!("C07 violated: n={} slot {} is pair ({}, {}) with the unique smallest entry -2 (all other entries 0 or -1) but the first step of {} {} {} merges ({}, {}) at {:e}",
+                                    n, k, i, j, ALGO_NAMES[algo as usize], METHOD_NAMES[method as usize], if wide { "f64" } else { "f32" },
+                                    steps.get(0).map(|s| s.c1).unwrap_or(0), steps.get(0).map(|s| s.c2).unwrap_or(0), steps.get(0).map(|s| height(&c, s)).unwrap_or(f64::NAN)));
+                            } else if method == 0 && steps.len() >= 2 {
+                                if let Some(x) = k2 {
+                                    let (p, q) = prs0[x];
+                                    let lab = |o: usize| if o == i || o == j { n as usize } else { o };
+                                    let want = (lab(p).min(lab(q)), lab(p).max(lab(q)));
+                                    if (steps[1].c1, steps[1].c2) != want || height(&c, &steps[1]) != -1.0 {
+                                        rep.violation(format!("C07 violated: n={} (entries 0 except -2 at slot {} and -1 at slot {} = pair ({}, {})): second step of {} single is ({}, {}) at {:e}, expected {:?} at -1",
+                                            n, k, x, p, q, ALGO_NAMES[algo as usize], steps[1].c1, steps[1].c2, height(&c, &steps[1]), want));
+                                    }
+                                }
+                            }
+                        } else if let Outcome::Panic(kk, m) = &out { rep.violation(format!("C07 violated: panic {} {} on zero-background probe n={} slot={}", kk, m, n, k)); }
+                    }
+                }
+            }
             for algo in 0..5u8 {
                 if algo == 4 && n > 150 { continue; }
                 let methods: Vec<u8> = if n <= 16 { (0..7).filter(|&m| accepts(algo, m)).collect() } else { vec![0] };
@@ -944,6 +986,29 @@ fn cost(ctx: &Ctx, rep: &mut Report) {
             }}
         }
     }
+    // a long nearest-neighbour chain (geometric progression on a line) plus a tight pair off the line,
+    // one of whose members is observation 0: the pair is merged first, through a short chain, and its
+    // survivor then stays off the long chain for the rest of the run
+    for &n in &sizes {
+        if n < 16 { continue; }
+        for &(ratio, j) in &[(1.1f64, 2usize), (1.3, 5), (1.05, 3)] {
+            let nn = n as usize;
+            let h = ratio.powi((0.8 * n as f64) as i32);
+            let mut pts: Vec<(f64, f64)> = vec![(0.0, 0.0); nn];
+            let mut e = nn as i32 - 3;
+            for i in 0..nn { if i == 0 { pts[i] = (0.0, h); } else if i == j { pts[i] = (1e-6 * h, h); } else { pts[i] = (ratio.powi(e), 0.0); e -= 1; } }
+            let mut v = Vec::with_capacity(nn * (nn - 1) / 2);
+            for a in 0..nn { for b in a + 1..nn { let (dx, dy) = (pts[a].0 - pts[b].0, pts[a].1 - pts[b].1); v.push((dx * dx + dy * dy).sqrt()); } }
+            if !v.iter().all(|x| x.is_finite()) { continue; }
+            for method in 0..5u8 { for &algo in &[0u8, 2] {
+                if !accepts(algo, method) { continue; }
+                if method == 4 && v.iter().any(|x| *x > 1e150) { continue; }
+                let wide = !(ratio == 1.05 && n <= 300 && method == 2);
+                if !wide && v.iter().any(|x| *x > 1e30) { continue; }
+                cases.push(AlgoCase { algo, method, wide, n, bits: to_bits(&v, wide), family: "satellite" });
+            }}
+        }
+    }
     for c in cases {
         tick(&ctx.progress, &c.describe());
         let out = run_fresh_w(c.wide, c.algo, c.method, c.n, &c.bits);
@@ -1001,8 +1066,64 @@ fn long_histories(ctx: &Ctx, rep: &mut Report) {
     }
 }
 
+/// Histories that are long enough for narrow counters, stamps and epochs kept inside the reused
+/// objects to wrap (256 and 65536 calls), with a few much larger problems placed one period apart,
+/// at the wrap itself and just around it; all other calls are tiny. Every call is compared with a
+/// fresh call.
+fn wrap_histories(ctx: &Ctx, rep: &mut Report) {
+    let mut rng = Rng::new(ctx.seed ^ 0x3A9);
+    let schedules: Vec<(usize, Vec<usize>)> = vec![
+        (600, vec![40, 296, 552]), (600, vec![256, 512]), (600, vec![255, 511]), (600, vec![257, 513]), (300, vec![128, 129]),
+        (66000, vec![100, 65636]), (66000, vec![65536]),
+    ];
+    for (si, (total, bigs)) in schedules.iter().enumerate() {
+        let combos: &[(u8, u8)] = if *total > 1000 { &[(1, 0), (2, 2)] } else { &[(1, 0), (0, 0), (2, 1), (2, 4), (0, 2), (3, 0), (3, 6)] };
+        for &(algo, method) in combos {
+            for &wide in (if *total > 1000 { &[true][..] } else { &[true, false][..] }) {
+                let mut st64: kodama::LinkageState<f64> = kodama::LinkageState::new();
+                let mut d64: kodama::Dendrogram<f64> = kodama::Dendrogram::new(0);
+                let mut st32: kodama::LinkageState<f32> = kodama::LinkageState::new();
+                let mut d32: kodama::Dendrogram<f32> = kodama::Dendrogram::new(0);
+                let small = matrix_f64(&mut rng, 4, "uniform", wide);
+                let small_bits = to_bits(&small, wide);
+                let small_fresh = run_fresh_w(wide, algo, method, 4, &small_bits);
+                for call in 1..=*total {
+                    let big = bigs.contains(&call);
+                    if call % 512 == 0 || big { tick(&ctx.progress, &format!("wrap history schedule {} call {} {} {}", si, call, ALGO_NAMES[algo as usize], METHOD_NAMES[method as usize])); }
+                    let (n, bits, fresh) = if big {
+                        let v = matrix_f64(&mut rng, 60, "euclid", wide); let b = to_bits(&v, wide);
+                        let f = run_fresh_w(wide, algo, method, 60, &b); (60u64, b, f)
+                    } else { (4u64, small_bits.clone(), small_fresh.clone()) };
+                    let warm = if wide { run_reused_quiet::<f64>(&mut st64, &mut d64, algo, method, n, &bits) } else { run_reused_quiet::<f32>(&mut st32, &mut d32, algo, method, n, &bits) };
+                    rep.evaluations += 1;
+                    let same = match (&warm, &fresh) {
+                        (Outcome::Ok { steps: a, obs: oa, .. }, Outcome::Ok { steps: b, obs: ob, .. }) => a == b && oa == ob,
+                        (Outcome::Panic(..), Outcome::Panic(..)) => true,
+                        _ => false,
+                    };
+                    if !same {
+                        rep.violation(format!("{} violated: call #{} (n={}) of a history of {} calls on one LinkageState/Dendrogram - {}_with {} {}, n=4 except n=60 at calls {:?} - differs from the same call on fresh objects: reused={} fresh={}",
+                            ctx.prop, call, n, total, ALGO_NAMES[algo as usize], METHOD_NAMES[method as usize], if wide { "f64" } else { "f32" }, bigs,
+                            join(&tokens(&warm), " ").chars().take(160).collect::<String>(), join(&tokens(&fresh), " ").chars().take(160).collect::<String>()));
+                        break;
+                    }
+                }
+            }
+        }
+    }
+}
+
+fn run_reused_quiet<T: Bits>(st: &mut kodama::LinkageState<T>, d: &mut kodama::Dendrogram<T>, algo: u8, method: u8, n: u64, bits: &[u64]) -> Outcome {
+    let mut m: Vec<T> = bits.iter().map(|&b| T::from_bits64(b)).collect();
+    match catch(|| call_with::<T>(algo, method, st, &mut m, n as usize, d)) {
+        Ok(()) => Outcome::Ok { obs: d.observations(), steps: steps_of(d), after: m.iter().map(|x| x.to_bits64()).collect(), acc: 0 },
+        Err((k, msg)) => Outcome::Panic(k, msg),
+    }
+}
+
 fn reuse(ctx: &Ctx, rep: &mut Report) {
     long_histories(ctx, rep);
+    wrap_histories(ctx, rep);
     let mut rng = Rng::new(ctx.seed ^ 0xC08);
     let count = if ctx.big { 4000 } else { 600 };
     let mut all: Vec<(History, Vec<Outcome>)> = vec![];
@@ -1057,7 +1178,7 @@ fn container(ctx: &Ctx, rep: &mut Report) {
     use kodama::{Dendrogram, Step};
     let mut rng = Rng::new(ctx.seed ^ 0xC19);
     let rounds = if ctx.big { 6000 } else { 1500 };
-    for r in 0..rounds {
+    'rounds: for r in 0..rounds {
         tick(&ctx.progress, &format!("container round {}", r));
         let n = rng.below(9) as usize;
         let mut d: Dendrogram<f64> = if r % 2 == 0 { Dendrogram::new(n) } else { let mut x = Dendrogram::new(rng.below(9) as usize); x.reset(n); x };
@@ -1072,7 +1193,7 @@ fn container(ctx: &Ctx, rep: &mut Report) {
             let x = match rng.below(14) { 0 => f64::INFINITY, 1 => f64::NEG_INFINITY, _ => (rng.below(50) as f64) * 0.25 };
             let res = catch(|| d.push(Step::new(c1, c2, x, sz)));
             rep.evaluations += 1;
-            if (k < cap) != res.is_ok() { rep.violation(format!("C19 violated: Dendrogram for n={}: push #{} {}", n, k + 1, if res.is_ok() { "accepted beyond n-1" } else { "rejected" })); break; }
+            if (k < cap) != res.is_ok() { rep.violation(format!("C19 violated: Dendrogram for n={}: push #{} {}", n, k + 1, if res.is_ok() { "accepted beyond n-1" } else { "rejected" })); continue 'rounds; }
             if res.is_ok() {
                 sizes.push(sz);
                 let s = &d[k];
@@ -1258,7 +1379,7 @@ fn wellformed(n: u64, len: usize) -> bool {
 }
 
 /// every (len, n) in a box plus extreme n, all entry points, fresh and `_with`
-fn shape_sweep(rep: &mut Report, seed: u64, big: bool) {
+fn shape_sweep(rep: &mut Report, seed: u64, big: bool, progress: &Progress) {
     let mut rng = Rng::new(seed ^ 0xC13);
     let max_len = if big { 2000 } else { 320 };
     let max_n = 64u64;
@@ -1270,6 +1391,7 @@ fn shape_sweep(rep: &mut Report, seed: u64, big: bool) {
     let mut ns: Vec<u64> = (0..=max_n).collect();
     ns.extend_from_slice(&[u64::MAX, 1u64 << 63, u64::MAX - 1, (1u64 << 63) + 1, 1u64 << 62, 1u64 << 60]);
     for len in 0..=max_len {
+        tick(progress, &format!("shape sweep len={}", len));
         for &n in &ns {
             let algo = rng.below(5) as u8;
             for da in 0..(if len <= 40 { 5 } else { 2 }) {
@@ -1331,6 +1453,29 @@ fn shape_sweep(rep: &mut Report, seed: u64, big: bool) {
             }
         }
     }
+    // over-long slices whose surplus entries are NaN (a shape check that looks at the contents), at the
+    // end, at the start and in the middle: a malformed shape stays malformed whatever it contains
+    for n in 2u64..=24 {
+        let good = (n * (n - 1) / 2) as usize;
+        for extra in 1usize..=3 {
+            for place in 0..3 {
+                let mut m: Vec<f64> = (0..good).map(|k| 1.0 + ((k * 7) % 11) as f64).collect();
+                for e in 0..extra { let pos = match place { 0 => m.len(), 1 => 0, _ => m.len() / 2 }; m.insert(pos, if e % 2 == 0 { f64::NAN } else { -f64::NAN }); }
+                let algo = ((n as usize + extra + place) % 5) as u8;
+                let method = loop { let mm = rng.below(7) as u8; if accepts(algo, mm) { break mm; } };
+                let wide = (n + place as u64) % 2 == 0;
+                tick(progress, &format!("malformed shape {} {} {} n={} len={} (= n(n-1)/2 + {} entries, the surplus ones NaN): the call must be rejected by the shape check, it was not - the call went on to cluster a matrix containing NaN",
+                    ALGO_NAMES[algo as usize], METHOD_NAMES[method as usize], if wide { "f64" } else { "f32" }, n, m.len(), extra));
+                let res: Result<usize, (u64, String)> = if wide { let mut mm = m.clone(); catch(|| call_fresh::<f64>(algo, method, &mut mm, n as usize).len()) }
+                    else { let mut mm: Vec<f32> = m.iter().map(|&x| x as f32).collect(); catch(|| call_fresh::<f32>(algo, method, &mut mm, n as usize).len()) };
+                rep.evaluations += 1;
+                if let Ok(k) = res {
+                    rep.violation(format!("C13 malformed shape accepted: {} {} {} n={} len={} (= n(n-1)/2 + {} entries, the surplus ones NaN) returned a dendrogram with {} steps",
+                        ALGO_NAMES[algo as usize], METHOD_NAMES[method as usize], if wide { "f64" } else { "f32" }, n, m.len(), extra, k));
+                }
+            }
+        }
+    }
     // lengths that collide with n(n-1)/2 modulo 2^8, 2^16 or 2^32 (a shape check computed in a
     // narrower or wrapping integer accepts them), and off-by-a-few lengths at larger n
     let mut pairs: Vec<(u64, usize)> = vec![];
@@ -1341,6 +1486,7 @@ fn shape_sweep(rep: &mut Report, seed: u64, big: bool) {
     };
     let cap_len = if big { 400000usize } else { 70000 };
     for &n in &cand_n {
+        tick(progress, &format!("shape sweep n={}", n));
         let exact = n * (n - 1) / 2;
         for k in [8u32, 16, 32] {
             let l = (exact % (1u64 << k)) as usize;
@@ -1427,7 +1573,9 @@ pub fn capibig(opt: &HashMap<String, String>) -> i32 {
     let seed = opt_u64(opt, "seed", 1);
     fn lcg(s: &mut u64) -> u64 { *s = s.wrapping_mul(6364136223846793005).wrapping_add(1442695040888963407); *s }
     fn fnv(mut h: u64, v: u64) -> u64 { for k in 0..8 { h ^= (v >> (8 * k)) & 0xff; h = h.wrapping_mul(0x100000001b3); } h }
-    for (si, &n) in [2048u64, 2049, 2311].iter().enumerate() { for mi in 0..7u8 { for wide in [true, false] {
+    for (si, &n) in [2048u64, 2049, 2311, 8194, 12288].iter().enumerate() { for mi in 0..7u8 { for wide in [true, false] {
+        // the two largest sizes (capacity-doubling bands of the step buffer): two fast methods only
+        if n > 4000 && mi != 0 && mi != 2 { continue; }
         let len = (n * (n - 1) / 2) as usize;
         let mut st = seed.wrapping_mul(1000003).wrapping_add((si * 100 + mi as usize * 10 + wide as usize) as u64);
         let vals: Vec<f64> = (0..len).map(|_| 1.0 + (lcg(&mut st) >> 12) as f64 / 4503599627370496.0).collect();
